@@ -449,12 +449,156 @@ Proof.
   - pose proof (nonempty_len _ NP) as LP. unfold Iso.capacity, Iso.af_content_len.
     destruct (Iso.lf l) as [| |a st]; [congruence | lia |]. cbn [Iso.ser_af] in L188. rewrite len_cons, len_app in L188. lia.
 Qed.
-Lemma set_payload_empty l : Iso.wf_lpkt l -> carries_payload l -> Iso.lf l <> Iso.NoAF ->
+
+
+(* ------------------------------------------------------------------ case: payload-only packet, short data:
+   SetPayload creates the adaptation field (SetAdaptationFieldControl -> initAdaptationField) *)
+Lemma blit_nat_nil l i : blit_nat l i [] = l.
+Proof. revert i; induction l as [|h t IH]; intros [|i]; cbn; try reflexivity. rewrite IH. reflexivity. Qed.
+Lemma blit_nil l i : blit l i [] = l.
+Proof. apply blit_nat_nil. Qed.
+Lemma hdr_ok_afc3 h : Iso.hdr_ok h -> Iso.hdr_ok (Iso.with_afc h 3).
+Proof.
+  intros (A & B & C' & D & F & G & I & J). unfold Iso.hdr_ok, Iso.with_afc.
+  cbn [Iso.sync Iso.tei Iso.pusi Iso.tp Iso.pid Iso.tsc Iso.afc Iso.cc]. repeat split; try assumption; lia.
+Qed.
+
+Lemma set_afc3_creates h pay : let l := Iso.mkLpkt h Iso.NoAF pay in Iso.wf_lpkt l ->
+  exists rest, len rest = 182 /\
+    fst (SetAdaptationFieldControl (Iso.ser_pkt l) 3) =
+      Iso.ser_hdr (Iso.with_afc h 3) ++ 182 :: Iso.ser_af_body Iso.laf0 ++ rest /\
+    HasAdaptationField (Iso.ser_hdr (Iso.with_afc h 3) ++ pay) = true.
+Proof.
+  intros l W.
+  pose proof (wf_is_pkt l W) as PK. pose proof (wf_hdr_of l W) as HO. pose proof (wf_len l W) as L188.
+  destruct (wf_flags l W) as (_ & HA & _).
+  assert (Iso.afc h = 1) as A1 by (destruct W as (_ & _ & _ & _ & _ & C); exact C).
+  cbn [Iso.lh l] in HA, HO. rewrite A1 in HA. change (1 / 2 =? 1) with false in HA.
+  assert (Iso.hdr_ok h) as HOK by (destruct W as (X & _); exact X).
+  assert (is_bytes pay) as PB by (destruct W as (_ & _ & _ & X & _); exact X).
+  set (p := Iso.ser_pkt l) in *.
+  assert (p = Iso.ser_hdr h ++ pay) as PE by reflexivity.
+  assert (len pay = 184) as LP by (rewrite PE in L188; rewrite len_app, len_ser_hdr in L188; lia).
+  set (h3 := Iso.with_afc h 3). set (T := Iso.ser_hdr h3 ++ pay).
+  pose proof (hdr_ok_afc3 h HOK) as HOK3. fold h3 in HOK3.
+  assert (is_pkt T) as PT.
+  { split; [unfold T; rewrite app_length; unfold len in LP; cbn [length Iso.ser_hdr]; lia|].
+    unfold T. apply is_bytes_app. split; [apply ser_hdr_bytes; exact HOK3 | exact PB]. }
+  (* the write to byte 3 *)
+  destruct (set_afc_byte p PK 3 ltac:(lia)) as (E & F & P1). cbv zeta in E, F, P1.
+  unfold SetAdaptationFieldControl. rewrite HA.
+  match goal with |- context [upd p 3 ?x] => set (p1 := upd p 3 x) in * end.
+  assert (p1 = T) as P1T.
+  { apply hdr_tail_ext; try assumption.
+    - rewrite E, HO. unfold T. symmetry. apply hdr_of_ser. exact HOK3.
+    - intros j J. rewrite F by lia. unfold get, T. rewrite PE.
+      rewrite !nthN_app_r by (rewrite len_ser_hdr; lia). rewrite !len_ser_hdr. reflexivity. }
+  rewrite P1T.
+  assert (HasAdaptationField T = true) as HAT.
+  { destruct (byte3_facts T PT) as (_ & _ & _ & _ & _ & _ & _ & X). rewrite X. unfold T. rewrite hdr_of_ser by exact HOK3. reflexivity. }
+  rewrite HAT. cbn [negb andb]. change (3 =? 3) with true. cbv iota.
+  (* initAdaptationField *)
+  destruct pay as [|x0 [|x1 pay2]]; [rewrite len_nil in LP; lia | rewrite len_cons, len_nil in LP; lia|].
+  rewrite !len_cons in LP.
+  set (Q0 := Iso.ser_hdr h3 ++ 183 :: Iso.ser_af_body Iso.laf0 ++ repeatN 255 182).
+  assert (AFP.initAdaptationField T = Q0) as INIT.
+  { unfold AFP.initAdaptationField, T, fill, PacketSize.
+    rewrite (upd_app_at (Iso.ser_hdr h3) _ _ 183 4) by reflexivity.
+    replace (Iso.ser_hdr h3 ++ 183 :: x1 :: pay2) with ((Iso.ser_hdr h3 ++ [183]) ++ x1 :: pay2) by (rewrite <- app_assoc; reflexivity).
+    rewrite (upd_app_at _ _ _ 0 5) by reflexivity.
+    replace ((Iso.ser_hdr h3 ++ [183]) ++ 0 :: pay2) with ((Iso.ser_hdr h3 ++ [183; 0]) ++ pay2) by (rewrite <- !app_assoc; reflexivity).
+    change (188 - 6) with 182.
+    rewrite blit_app_over; [| reflexivity | rewrite repeatN_length; unfold len in LP; lia].
+    replace (length pay2) with (N.to_nat 182) by (unfold len in LP; lia).
+    rewrite <- (repeatN_length 255 182) at 1. rewrite firstn_all.
+    unfold Q0. rewrite <- app_assoc. reflexivity. }
+  rewrite INIT.
+  assert (AFP.Length Q0 = 183) as LQ0 by (unfold AFP.Length, Q0; apply q_get4; reflexivity).
+  rewrite LQ0. change (183 =? 183) with true. cbv iota.
+  assert (AFP.stuffingStart Q0 = 6) as SQ0.
+  { unfold Q0. rewrite stuffing_start_body; [reflexivity | reflexivity | exact laf0_ok | cbn; lia]. }
+  rewrite SQ0. change (6 <? PacketSize) with true. cbv iota. cbn [fst].
+  unfold Q0. change 182%Z with (Z.of_N 182).
+  rewrite set_len_stuff; [| reflexivity | exact laf0_ok | rewrite len_repeatN; reflexivity | cbn; lia | lia].
+  eexists. split; [|split; [reflexivity | first [exact HAT | reflexivity]]].
+  rewrite len_app, len_repeatN, len_dropN, len_repeatN. reflexivity.
+Qed.
+
+Lemma set_payload_noaf_short h pay d : let l := Iso.mkLpkt h Iso.NoAF pay in
+  Iso.wf_lpkt l -> len d < 184 ->
+  SetPayload_m (Iso.ser_pkt l) d = (Iso.ser_pkt (Iso.set_payload l d), Ok (N.min (len d) (Iso.capacity l))).
+Proof.
+  intros l W LD.
+  destruct (set_afc3_creates h pay W) as (rest & LR & SA & HA3). fold l in SA.
+  pose proof (wf_len l W) as L188. destruct (wf_flags l W) as (AFC & HA & _).
+  assert (Iso.afc h = 1) as A1 by (destruct W as (_ & _ & _ & _ & _ & C); exact C).
+  cbn [Iso.lh l] in AFC, HA. rewrite A1 in AFC, HA. change (1 / 2 =? 1) with false in HA.
+  set (p := Iso.ser_pkt l) in *. set (h3 := Iso.with_afc h 3) in *.
+  assert (payloadStart_m p = 4) as PS by (unfold payloadStart_m; rewrite HA; reflexivity).
+  assert (stuffingStart_m p = 4) as SM by (unfold stuffingStart_m; rewrite HA; reflexivity).
+  unfold SetPayload_m. rewrite AFC. change (1 =? 2) with false. cbv iota. rewrite PS, SM.
+  change (PacketSize <? 4) with false. cbn [orb]. unfold SetPayload_prepare, freeSpace. rewrite SM.
+  replace (zlen d <? 188 - Z.of_N 4)%Z with true by (symmetry; apply Z.ltb_lt; unfold zlen, len in *; lia).
+  rewrite SA.
+  assert (AFP.Length (Iso.ser_hdr h3 ++ 182 :: Iso.ser_af_body Iso.laf0 ++ rest) = 182) as L1
+    by (unfold AFP.Length; apply q_get4; reflexivity).
+  rewrite L1. change (182 =? 0) with false. cbv iota.
+  assert (HasAdaptationField (Iso.ser_hdr h3 ++ 182 :: Iso.ser_af_body Iso.laf0 ++ rest) = true) as HAQ.
+  { rewrite (has_af_prefix (Iso.ser_hdr h3) _ pay eq_refl). exact HA3. }
+  unfold Iso.set_payload. change (Iso.capacity l) with 184.
+  replace (len d <? 184) with true by (symmetry; apply N.ltb_lt; lia). cbn [Iso.lf Iso.lh l]. fold h3.
+  destruct (N.eqb_spec (len d) 183) as [E|NE].
+  - (* 183 bytes: the field shrinks to its length byte *)
+    replace (188 - (zlen d + 4 + 1))%Z with 0%Z by (unfold zlen, len in *; lia).
+    unfold AFP.setLength. change (byteZ 0) with 0.
+    rewrite (upd_app_at (Iso.ser_hdr h3) _ _ 0 4) by reflexivity.
+    unfold AFP.stuffAF, fill.
+    rewrite stuffing_start_body; [| reflexivity | exact laf0_ok | cbn; lia].
+    unfold AFP.stuffingEnd. rewrite q_get4 by reflexivity.
+    change (PacketSize <? 0 + 5) with false. cbv iota.
+    change (0 + 5 - (5 + len (Iso.ser_af_body Iso.laf0))) with 0. change (repeatN 255 0) with (@nil N).
+    rewrite blit_nil.
+    assert (payloadStart_m (Iso.ser_hdr h3 ++ 0 :: Iso.ser_af_body Iso.laf0 ++ rest) = 5) as PS'.
+    { unfold payloadStart_m. rewrite (has_af_prefix (Iso.ser_hdr h3) _ pay eq_refl), HA3.
+      unfold AFP.Length. rewrite q_get4 by reflexivity. reflexivity. }
+    rewrite PS'. change (PacketSize <? 5) with false. cbv iota. f_equal.
+    + replace (Iso.ser_hdr h3 ++ 0 :: Iso.ser_af_body Iso.laf0 ++ rest)
+        with ((Iso.ser_hdr h3 ++ [0]) ++ Iso.ser_af_body Iso.laf0 ++ rest) by (rewrite <- app_assoc; reflexivity).
+      rewrite blit_app_over; [| reflexivity | rewrite app_length; change (length (Iso.ser_af_body Iso.laf0)) with 1%nat; unfold len in *; lia].
+      replace (length (Iso.ser_af_body Iso.laf0 ++ rest)) with (length d)
+        by (rewrite app_length; change (length (Iso.ser_af_body Iso.laf0)) with 1%nat; unfold len in *; lia).
+      rewrite firstn_all. rewrite ser_pkt_empty. rewrite <- app_assoc. reflexivity.
+    + f_equal. unfold PacketSize. lia.
+  - destruct (finish_short (Iso.ser_hdr h3) 182 Iso.laf0 rest eq_refl laf0_ok
+                ltac:(change (len (Iso.ser_af_body Iso.laf0)) with 1; lia) d HAQ
+                ltac:(change (len (Iso.ser_af_body Iso.laf0)) with 1; lia)) as [Q1 Q2].
+    cbv zeta in Q1, Q2. rewrite Q1 in *.
+    replace (PacketSize <? 188 - len d) with false by (symmetry; apply N.ltb_ge; unfold PacketSize; lia).
+    rewrite Q2. f_equal.
+    + rewrite ser_pkt_af. rewrite len_repeatN. change (len (Iso.ser_af_body Iso.laf0)) with 1.
+      replace (1 + (182 - len d)) with (183 - len d) by lia.
+      replace (183 - len d - 1) with (182 - len d) by lia. reflexivity.
+    + f_equal. unfold PacketSize. lia.
+Qed.
+
+(* ------------------------------------------------------------------ the full statement *)
+Lemma set_payload_ok l d : Iso.wf_lpkt l -> carries_payload l ->
+  SetPayload_m (Iso.ser_pkt l) d = (Iso.ser_pkt (Iso.set_payload l d), Ok (N.min (len d) (Iso.capacity l))).
+Proof.
+  intros W CP. destruct (Iso.lf l) as [| |a st] eqn:F.
+  - destruct (N.lt_ge_cases (len d) 184) as [LT|GE].
+    + destruct l as [h f pay]. cbn [Iso.lf] in F. subst f. exact (set_payload_noaf_short h pay d W LT).
+    + apply set_payload_ok_partial; [exact W | exact CP | right; exact GE].
+  - apply set_payload_ok_partial; [exact W | exact CP | left; rewrite F; discriminate].
+  - apply set_payload_ok_partial; [exact W | exact CP | left; rewrite F; discriminate].
+Qed.
+
+Lemma set_payload_empty l : Iso.wf_lpkt l -> carries_payload l ->
   SetPayload_m (Iso.ser_pkt l) [] = (Iso.ser_pkt (Iso.set_payload l []), Ok 0) /\
   Iso.lpayload (Iso.set_payload l []) = [] /\ Iso.afc (Iso.lh (Iso.set_payload l [])) = 3.
 Proof.
-  intros W CP NE. pose proof (capacity_pos l W CP) as C1.
-  rewrite (set_payload_ok_partial l [] W CP (or_introl NE)). rewrite len_nil.
+  intros W CP. pose proof (capacity_pos l W CP) as C1.
+  rewrite (set_payload_ok l [] W CP). rewrite len_nil.
   replace (N.min 0 (Iso.capacity l)) with 0 by lia. split; [reflexivity|].
   unfold Iso.set_payload. rewrite len_nil. replace (0 <? Iso.capacity l) with true by (symmetry; apply N.ltb_lt; lia).
   split; reflexivity.
